@@ -89,10 +89,14 @@ def files(ctx, report):
     import fastparquet
     from fastparquet import writer
     rng = ctx.rng
-    nsc = 10 if ctx.quick else 80
+    nsc = 12 if ctx.quick else 80
     for sc in range(nsc):
         shape = ["flat", "flat", "hive", "drill", "flat-cat", "flat-catdiff", "subdatasets", "flat-catprefix"][sc % 8]
         k = rng.choice([1, 2, 3, 4, 5]) if sc % 8 != 1 else 4
+        if sc in (2, 3):
+            k = 4            # directed: hive / drill trees of >= 3 files with two top-level directories
+        if sc in (10, 11):
+            k = 1            # directed: hive / drill tree with ONE top-level directory (opened by directory)
         if shape == "flat-catprefix":
             k = 3
         root = os.path.join(ctx.workdir("c14"), f"s{sc}")
@@ -148,6 +152,8 @@ def files(ctx, report):
         given = [paths[i] for i in order]
         exp = pd.concat([frames[i] for i in order], ignore_index=True)
         modes = ["list", "list-sorted", "merge"] + (["dir", "glob"] if shape != "subdatasets" else [])
+        if shape != "subdatasets":
+            modes.append("list-fs")       # the same list through an fsspec filesystem (footers gathered in one pass for >= 3 files)
         firstdirs = {os.path.relpath(p, root).split("/")[0] for p in paths}
         must_give_root = shape in ("hive", "drill") and len(firstdirs) < 2      # the top level cannot be inferred from one branch
         for mode in modes:
@@ -158,6 +164,10 @@ def files(ctx, report):
             try:
                 if mode == "list":
                     pf = fastparquet.ParquetFile(given, **rkw)
+                    want = exp
+                elif mode == "list-fs":
+                    import fsspec
+                    pf = fastparquet.ParquetFile(given, fs=fsspec.filesystem("file"), **rkw)
                     want = exp
                 elif mode == "list-sorted":
                     pf = fastparquet.ParquetFile(sorted(paths), **rkw)
@@ -205,6 +215,15 @@ def files(ctx, report):
             if shape == "drill":
                 if "dir0" not in got.columns:
                     probs.append("drill levels were not inferred as dir0, dir1")
+                # exactly the directory levels between the root and the files, with the directory names as values
+                dcols = sorted(c for c in got.columns if str(c).startswith("dir"))
+                if dcols and dcols != ["dir0", "dir1"] and not (must_give_root and not give_root):
+                    if not (dcols == ["dir0"] and not give_root and len(firstdirs) < 2):
+                        probs.append(f"drill levels came back as {dcols} for files two directories below the root")
+                if dcols == ["dir0", "dir1"] and len(got):
+                    lv = sorted(set(map(str, got["dir0"].astype(object).tolist())))
+                    if any(not v.startswith("g") for v in lv):
+                        probs.append(f"dir0 holds {lv[:4]} instead of the first-level directory names")
             if probs:
                 is_cat = shape == "flat-catdiff" and all("'cat'" in p for p in probs)
                 report.violation({**rec, "what": "; ".join(probs)[:400], "cats": "differ" if is_cat else "n/a",
